@@ -355,7 +355,9 @@ def crash_experiments(prefix, step, world_kw=None, ks=None, keep_all=False):
                 stack.pop()
                 if kind == "MH.pack-done":
                     after = "MH.pack+"
-        for k in (ks if ks is not None else range(1, npoints + 1)):
+        # k = npoints + 1: no point is armed, the step runs to its last acknowledgement and the
+        # process ends there without any shutdown ("power off right after the OK")
+        for k in (ks if ks is not None else range(1, npoints + 2)):
             rootk = os.path.join(base, f"k{k}")
             shutil.copytree(root0, rootk, symlinks=True)
             ledk = os.path.join(base, f"led{k}.jsonl")
@@ -370,9 +372,11 @@ def crash_experiments(prefix, step, world_kw=None, ks=None, keep_all=False):
             obsp = os.path.join(base, f"obs{k}.json")
             code2, _ = fork_run(_child_observe, rootk, obsp, world_kw)
             obs = json.load(open(obsp)) if os.path.exists(obsp) else {"started": False, "error": "observer died"}
-            out.append({"k": k, "point": points[k - 1] if k - 1 < len(points) else ["?", ""],
-                        "killed": code == 97, "exit": code, "ledger0": ledger0, "acks": acks, "obs": obs,
-                        "completed": completed, "ctx": ctx[k - 1] if k - 1 < len(ctx) else ""})
+            end = k == npoints + 1 and code == 0
+            out.append({"k": k, "point": points[k - 1] if k - 1 < len(points) else
+                        (["end", "after the last acknowledgement"] if end else ["?", ""]),
+                        "killed": code == 97, "end": end, "exit": code, "ledger0": ledger0, "acks": acks, "obs": obs,
+                        "completed": completed, "ctx": ctx[k - 1] if k - 1 < len(ctx) else ("end" if end else "")})
             shutil.rmtree(rootk, ignore_errors=True)
         return out, npoints
     finally:
